@@ -21,6 +21,7 @@ VARIANTS = {
     "c04nd": (["-fsanitize=address,undefined", "-fno-sanitize-recover=all", "-DNDEBUG"], "-O0"),
     "c04tsan": (["-fsanitize=thread", "-DNDEBUG"], "-O1"),
 }
+core.SAN_ENV["UBSAN_OPTIONS"] = "print_stacktrace=0:halt_on_error=1:exitcode=98"   # message must fit the kept stderr tail
 os.environ.setdefault("TSAN_OPTIONS", "halt_on_error=1:exitcode=66:second_deadlock_stack=1")
 
 
@@ -96,6 +97,30 @@ def build_c04(ctx, name="c04", sources=(), flags=(), repo_sources=(), sanitize=T
 
 
 core.build_harness = build_c04     # only inside this check's process (flow.run / flow.replay)
+
+_orig_crash_message = core.crash_message
+
+
+def crash_message_c04(rc, err):
+    """one-line class of a harness death: the harness prints `C04-DEATH: <kind> in <innermost
+    tlx/sort frame>` (no addresses, template arguments, line numbers) from its ASan report
+    callback / its __assert_fail; otherwise UBSan's or TSan's own one-line summary"""
+    import re
+    m = re.search(r"C04-DEATH: (.*)", err)
+    if m:
+        return f"#VIOL crash rc={rc} {m.group(1).strip()[:200]}"
+    for l in err.splitlines():
+        if "runtime error:" in l:
+            return f"#VIOL crash rc={rc} ubsan " + re.sub(r"^.*?/tlx/", "tlx/", l.strip())[:160]
+    for l in err.splitlines():
+        if l.startswith("SUMMARY: ThreadSanitizer"):
+            l = re.sub(r"\(.*?\)", "", l)
+            l = re.sub(r"<.*", "", l)
+            return f"#VIOL crash rc={rc} tsan " + re.sub(r"/\S*/tlx/", "tlx/", l[25:].strip())[:160]
+    return _orig_crash_message(rc, err)
+
+
+core.crash_message = crash_message_c04
 
 # --------------------------------------------------------------------------- generators
 
@@ -312,8 +337,7 @@ class C04(flow.Spec):
             ctx.say(f"stage {label}: {r.cases} cases, {len(r.viol)} oracle violations, {len(r.crash)} aborts "
                     f"({time.time()-t:.1f}s)")
             cov["stages"].append(f"{label}: {r.cases} cases, oracle + sanitizer only")
-            bad = [(c, m) for c, m in r.viol] + [(c, core.crash_message(rc, err) + " " + _tsan_summary(err))
-                                                 for c, rc, err in r.crash]
+            bad = [(c, m) for c, m in r.viol] + [(c, core.crash_message(rc, err)) for c, rc, err in r.crash]
             seen = set()
             for c, msg in bad:
                 cls = self.viol_class(msg)
@@ -326,13 +350,6 @@ class C04(flow.Spec):
                                             f"replay: python3 check.py C04 --replay replays/C04/{name}"], c)
                 ctx.violation(p, f"property fails on the implementation ({label} build): {msg[:200]}", True)
         return cov
-
-
-def _tsan_summary(err):
-    for l in err.splitlines():
-        if l.startswith("SUMMARY: ThreadSanitizer") or "WARNING: ThreadSanitizer" in l:
-            return l.strip()[:200]
-    return ""
 
 
 SPEC = C04()
